@@ -28,6 +28,10 @@ type PtrV struct {
 	// is Root (Path then selects a field inside the element).
 	Elem bool
 	Idx  Term
+	// AIdx: the pointer designates element AIdx of a fixed array that is a field (Path) of the object; the field is
+	// one leaf holding an SMT array. AElem is the element type.
+	AIdx  *Term
+	AElem types.Type
 }
 
 type SliceV struct {
